@@ -122,11 +122,18 @@ def worker_main(pid, chunk_path, out_path):
            "inconclusive": 0}
     sigs = array.array("Q")
     nt_sigs = array.array("Q")
+    hangs = 0
     with M.quiet():
         if hasattr(mod, "setup"):
             mod.setup(ctx)
     try:
         for case in mod.cases(chunk):
+            if hangs >= 3:
+                # calls that do not return cost the full watchdog each: three confirmed hangs decide the chunk, the
+                # rest of it is not run (reported, so that the run is not mistaken for a complete one)
+                out["aborted_after_hangs"] = hangs
+                ctx.count("chunk_cut_short_after_3_hangs")
+                break
             out["n"] += 1
             try:
                 res = run_one(mod, case, ctx, limit)
@@ -151,6 +158,8 @@ def worker_main(pid, chunk_path, out_path):
                 ctx.count("inconclusive:" + res.get("why", "?"))
             elif v == "violated":
                 out["violated"] += 1
+                if "hang" in (res.get("cls") or []):
+                    hangs += 1
                 kf = None
                 if hasattr(mod, "classify"):
                     kf = mod.classify(case, res.get("witness", {}))
